@@ -544,6 +544,85 @@ func (s *S7b) expect() []*refcodec.Node {
 	return o
 }
 
+// S12: struct tags with more keys than avp (a struct that is also JSON- or XML-encoded):
+// omitempty means what it says whichever key comes first
+type S12 struct {
+	A    uint32  `json:"a" avp:"G-U32"`
+	B    uint64  `avp:"G-U64,omitempty" json:"b"`
+	C    string  `json:"c,omitempty" avp:"G-UTF8,omitempty"`
+	D    []byte  `xml:"d" json:"d" avp:"G-Octets"`
+	E    *int32  `json:"e" avp:"G-I32,omitempty"`
+	Keep string  `avp:"G-Ident" json:"keep,omitempty"`
+	L    []int64 `json:"l" avp:"G-I64,omitempty"`
+}
+
+func (s *S12) fill(r *rand.Rand) {
+	*s = S12{}
+	if r.IntN(2) == 0 {
+		s.A = uint32(rI(r, refcodec.Unsigned32))
+	}
+	if r.IntN(2) == 0 {
+		s.B = uint64(rI(r, refcodec.Unsigned64))
+	}
+	if r.IntN(2) == 0 {
+		s.C = rStr(r, true)
+	}
+	if r.IntN(2) == 0 {
+		s.D = []byte(rStr(r, true))
+	}
+	if r.IntN(2) == 0 {
+		v := int32(rI(r, refcodec.Integer32))
+		s.E = &v
+	}
+	if r.IntN(2) == 0 {
+		s.Keep = rStr(r, true)
+	}
+	for i := r.IntN(3); i > 0; i-- {
+		s.L = append(s.L, rI(r, refcodec.Integer64))
+	}
+}
+func (s *S12) expect() []*refcodec.Node {
+	o := []*refcodec.Node{nU(9009, fM, refcodec.Unsigned32, uint64(s.A))}
+	if s.B != 0 {
+		o = append(o, nU(9010, fM, refcodec.Unsigned64, s.B))
+	}
+	if s.C != "" {
+		o = append(o, nStr(9002, fM, refcodec.UTF8String, []byte(s.C)))
+	}
+	o = append(o, nStr(9001, fM, refcodec.OctetString, s.D))
+	if s.E != nil {
+		o = append(o, nI(9007, fM, refcodec.Integer32, int64(*s.E)))
+	}
+	o = append(o, nStr(9003, fM, refcodec.DiameterIdentity, []byte(s.Keep)))
+	for _, v := range s.L {
+		o = append(o, nI(9008, fM, refcodec.Integer64, v))
+	}
+	return o
+}
+
+// S13: an embedded struct inside the struct of a grouped AVP
+type S13Inner struct {
+	O string `avp:"G-Octets"`
+}
+type S13 struct {
+	U uint32 `avp:"G-U32"`
+	G struct {
+		S13Inner
+		Addr net.IP `avp:"G-Addr"`
+	} `avp:"G-Group"`
+}
+
+func (s *S13) fill(r *rand.Rand) {
+	*s = S13{U: uint32(rI(r, refcodec.Unsigned32))}
+	s.G.O, s.G.Addr = rStr(r, true), rIP(r)
+}
+func (s *S13) expect() []*refcodec.Node {
+	return []*refcodec.Node{
+		nU(9009, fM, refcodec.Unsigned32, uint64(s.U)),
+		nG(9018, fM, nStr(9001, fM, refcodec.OctetString, []byte(s.G.O)), nIP(9015, fM, s.G.Addr)),
+	}
+}
+
 // S8: vendor-specific AVPs: V flag and vendor id from the dictionary
 type S8 struct {
 	VU uint32 `avp:"GV-U32"`
@@ -793,6 +872,8 @@ func TestC18(t *testing.T) {
 		{"S9-default-dictionary", func() shape { return new(S9) }, def, 257, ""},
 		{"S10-embedded-not-first", func() shape { return new(S10) }, g, 8388000, ""},
 		{"S11-embedded-last-after-absent-field", func() shape { return new(S11) }, g, 8388000, ""},
+		{"S12-tags-with-several-keys", func() shape { return new(S12) }, g, 8388000, ""},
+		{"S13-embedded-inside-a-group", func() shape { return new(S13) }, g, 8388000, ""},
 	}
 	n := rec.N(60000, 30000000)
 	var runValue func(c *ev.Case, e entry)
